@@ -584,6 +584,13 @@ example : (run (unet3d UnetP.std 2) ⟨[1, 1, 8], [], []⟩).toOption.map (·.cu
 example : (run (resnet 3 1 2) ⟨[1, 1], [], []⟩).toOption.map (·.cur) = some [1, 1] := by decide
 example : (run (gru false false 2) ⟨[1, 31], [], []⟩).toOption.map (·.cur) = some [1, 31] := by decide
 example : run (gru true true 2) ⟨[1, 1], [], []⟩ = .error .value := by decide
+example : mwAxisOk 3 2 = false ∧ mwAxisOk 3 3 = true ∧ didnAxisOk 2 = false ∧ dubAxisOk 1 = false := by decide
+example : ¬ ∃ n ∈ [7, 7, 7], 2 ^ (2 + 1) ≤ n := by decide
+example : ∃ n ∈ [1, 1, 8], 2 ^ (2 + 1) ≤ n := by decide
+example : run (didn DidnP.std 1 1 false) ⟨[2, 9], [], []⟩ = .error .runtime ∧ run (dub DidnP.std true) ⟨[1, 4], [], []⟩ = .error .runtime := by
+  decide
+example : permInverse [0, 1, 4, 2, 3] [0, 1, 3, 4, 2] = true ∧ permRowOk ("RIM", 0, [0, 3, 1, 2], []) = true ∧
+    permRowOk ("Unet2d", 0, [0, 3, 1, 2], [0, 3, 2, 1]) = false := by decide
 example : mult16 17 = 32 ∧ mult16 16 = 16 ∧ mult16 1 = 16 ∧ pad16Lo 21 = 5 ∧ pad16Hi 21 = 6 := by decide
 example : unrolledCalls [] [⟨.perCoil, 2, 2⟩, ⟨.image, 2, 2⟩] 2 1 3 [5, 6] =
     [⟨[1, 2, 5, 6], [1, 2, 5, 6]⟩, ⟨[1, 2, 5, 6], [1, 2, 5, 6]⟩, ⟨[1, 2, 5, 6], [1, 2, 5, 6]⟩, ⟨[1, 2, 5, 6], [1, 2, 5, 6]⟩,
